@@ -402,10 +402,10 @@ def option_cover(k, **kw):
 
 SINGLE_TREES = [((-1,), ("hinge",)), ((-1,), ("slide",)), ((-1,), ("ball",)), ((-1,), ("free",)),
                 ((-1,), ("hinge2",)), ((-1,), ("slidehinge",))]
-QUICK_TREES = [
-    ((-1, 0), ("hinge", "hinge")), ((-1, 0), ("free", "hinge")), ((-1, 0), ("ball", "slide")),
+QUICK_TREES = [   # every joint type as root and as child; a scalar joint after a quaternion joint AND before further dofs
+    ((-1, 0), ("hinge", "hinge")), ((-1, 0), ("free", "hinge")), ((-1, 0), ("ball", "hinge2")),
     ((-1, 0), ("slidehinge", "ball")), ((-1, -1), ("hinge", "slide")), ((-1, -1), ("free", "ball")),
-    ((-1, 0), ("none", "hinge")), ((-1, 0), ("slide", "hinge2")),
+    ((-1, 0), ("none", "slide")), ((-1, 0), ("slide", "hinge2")),
 ]
 
 
